@@ -9,9 +9,18 @@ block    = ("h", level 1..6, inline)                    heading
                                                          first top-level colon of a line whose prefix ends in ';' (the one-line
                                                          definition item "; term : description")
          | ("table", [row, ...]); row = [(is_header, cellbody), ...]; cellbody = ("inl", inline) | ("blocks", [block...])
+         | ("table", [row, ...], (attrs, inline))        the same with a caption line "|+ inline" / "|+ attrs | inline" in front of the
+                                                         first row; the caption holds any inline content (links with labels - whose pipe
+                                                         is NOT the attribute separator -, styles, named URLs, refs, repeated tokens)
          | ("pre", [inline(words only) line, ...])       lines starting with one space
 inline   = list of: ("w", word) | ("b", variant, inline) | ("i", variant, inline) | ("link", target, inline)
                     | ("ext", url, inline) | ("ref", inline)
+                    | ("nslink", target, colon, kind, full, inline)   [[Prefix:Name]] / [[:Prefix:Name]] with an optional label; the
+                          prefix is drawn from the namespace names, canonical names and aliases and the interwiki prefixes of ALL bundled
+                          site languages, so in the language of the document it may be a category / file / other namespace, a language or
+                          interwiki prefix, or mean nothing (then the whole target names an article).  kind (article, category, image, ns,
+                          lang, interwiki) and full (the target with the namespace name of THIS language) are computed by `NsOracle` from
+                          the raw siteinfo JSON of the document's language - not by mwlib's NsHandler.
                     | ("x", token, glue_left, glue_right)     a SHORT REPEATED text token: one punctuation character
                                                               (: | , ; / &amp;) or the repeated word "und"; glue_* = no blank
                                                               between it and its neighbour ("[[A]]:[[B]] w1:w2")
@@ -50,7 +59,13 @@ Kept away from ambiguity (the property only speaks about well-formed constructs)
     urls and refs); a line after such an item that extends its prefix ("; t : d" then ";* x") is a sub-list of the description;
     list prefixes change only in ways whose MediaWiki meaning is the prefix tree (see `denote_list`);
   * tables: every row starts with an explicit |- line; cell bodies with blocks start on their own line;
-  * no links inside links, no refs inside refs, no ext-link label containing ']'."""
+  * no links inside links, no refs inside refs, no ext-link label containing ']';
+  * namespace-prefixed links: only prefixes made of letters whose lower/upper casing round-trips; a prefix that is BOTH a namespace
+    and an interwiki prefix in the language of the document is not generated (MediaWiki and mwlib look them up in a different
+    order); category links carry no label (it would be a sort key, not text), file links at most a plain caption and no
+    thumb/frame/alignment option (those turn the image into a block)."""
+import json
+import os
 
 WORDCHARS = "abcdefghijklmnopqrstuvwxyz"
 PUNCT = [":", ":", "|", ",", ";", "/", "&amp;", "und"]
@@ -58,11 +73,86 @@ X_TEXT = {"&amp;": "&"}
 APO = "'"
 
 
+def _cap(t):
+    return t[0:1].upper() + t[1:]
+
+
+def _simple_prefix(p):
+    """letters only, casing round-trips (so that lower-casing, which mwlib and the oracle both apply, cannot be the point)"""
+    return bool(p) and p.isalpha() and p.upper().lower() == p.lower() and p.lower().upper() == p.upper() and _cap(p).lower() == p.lower()
+
+
+IW_SAMPLE = ["wikt", "b", "s", "q", "n", "v", "commons", "meta", "m", "mw", "wiktionary", "wikibooks", "wikisource", "wikiquote", "wikinews",
+             "wikiversity", "species", "foundation", "doi", "google"]
+
+
+class NsOracle:
+    """What a namespace-prefixed link denotes in a site language, computed from the raw siteinfo JSON files bundled with mwlib
+    (data, not code: mwlib.core.nshandling is not used).  namespaces: local name, canonical name, aliases, compared case-insensitively;
+    interwikimap: prefix -> language link (entry has a language) or interwiki link."""
+    AMBIGUOUS = "ambiguous"
+
+    def __init__(self, sites_dir, langs):
+        self.langs = list(langs)
+        self.ns = {}
+        self.iw = {}
+        groups = {}
+        for lang in self.langs:
+            with open(os.path.join(sites_dir, "siteinfo-%s.json" % lang), encoding="utf-8") as fh:
+                info = json.load(fh)
+            names = {}
+
+            def put(name, nsid, names=names, info=info):
+                low = name.lower().strip()
+                val = (nsid, info["namespaces"][str(nsid)]["*"])
+                if low in names and names[low] != val:
+                    names[low] = self.AMBIGUOUS
+                else:
+                    names[low] = val
+            for nsp in info["namespaces"].values():
+                if nsp["*"]:
+                    put(nsp["*"], nsp["id"])
+                if nsp.get("canonical"):
+                    put(nsp["canonical"], nsp["id"])
+            for al in info.get("namespacealiases", []):
+                put(al["*"], al["id"])
+            self.ns[lang] = names
+            self.iw[lang] = {k["prefix"]: bool(k.get("language")) for k in info.get("interwikimap", [])}
+            for nsp in list(info["namespaces"].values()) + list(info.get("namespacealiases", [])):
+                for nm in (nsp["*"], nsp.get("canonical") or ""):
+                    if _simple_prefix(nm):
+                        g = "cat" if nsp["id"] == 14 else "file" if nsp["id"] == 6 else "other"
+                        groups.setdefault(g, set()).add(nm)
+        iw_all = set.intersection(*[set(self.iw[lang]) for lang in self.langs]) if self.langs else set()
+        groups["iw"] = {p for p in list(self.langs) + IW_SAMPLE if p in iw_all and _simple_prefix(p)}
+        # a name may be a category name in one language and a file alias in another: the group only steers what label the link gets
+        self.pool = {g: sorted(v) for g, v in groups.items()}
+
+    def resolve(self, lang, prefix):
+        """(kind, name of the namespace in `lang` or None); None when the prefix is ambiguous in that language"""
+        low = prefix.strip().lower()
+        iw = self.iw[lang].get(low)
+        nsv = self.ns[lang].get(low)
+        if iw is not None and nsv is not None:
+            return None
+        if iw is not None:
+            return ("lang" if iw else "interwiki", None)
+        if nsv is None:
+            return ("article", None)
+        if nsv == self.AMBIGUOUS:
+            return None
+        nsid, local = nsv
+        return ("image" if nsid == 6 else "category" if nsid == 14 else "article" if nsid == 0 else "ns", local)
+
+
 class Gen:
-    def __init__(self, rng, size):
+    def __init__(self, rng, size, ns=None, lang=None, captions=False):
         self.rng = rng
         self.n = 0
         self.size = size
+        self.ns = ns                # NsOracle: namespace-prefixed links are generated (denotation in language `lang`)
+        self.lang = lang
+        self.captions = captions    # tables get caption lines
         self.forbid = frozenset()   # "x" tokens that would be markup in the current context
         self.noq3 = False           # the current physical line holds a three-run "apo": no other bold quote runs on it
 
@@ -73,6 +163,40 @@ class Gen:
     def words(self, k=None):
         return [("w", self.word()) for _ in range(k or self.rng.randint(1, 3))]
 
+    def nslink(self, allow_b=True, allow_i=True, plain_label=False):
+        """[[Prefix:Name]] with a prefix that is a namespace / interwiki prefix in SOME bundled language; denotation in self.lang"""
+        rng = self.rng
+        for _attempt in range(20):
+            g = rng.choice(["cat", "cat", "file", "file", "other", "other", "iw"])
+            prefix = rng.choice(self.ns.pool[g])
+            r = rng.random()
+            if r < 0.12:
+                prefix = prefix.lower()
+            elif r < 0.2:
+                prefix = prefix.upper()
+            res = self.ns.resolve(self.lang, prefix)
+            if res is not None:
+                break
+        else:
+            return ("link", "T" + self.word(), [])
+        kind, local = res
+        name = "T" + self.word() + (".png" if g == "file" and rng.random() < 0.8 else "")
+        target = "%s:%s" % (prefix, name)
+        colon = rng.random() < 0.15
+        full = "" if kind in ("lang", "interwiki") else "%s:%s" % (local, name) if local is not None else _cap(target)
+        if colon:
+            kind = "ns"
+        label = []
+        if g != "cat" and rng.random() < 0.4:
+            if g == "file" or plain_label:
+                label = self.words(rng.randint(1, 2))
+            else:
+                saved = self.forbid
+                self.forbid = saved | {"|"}
+                label = self.inline(2, False, False, allow_b, allow_i)
+                self.forbid = saved
+        return ("nslink", target, colon, kind, full, label)
+
     def inline(self, depth=0, allow_link=True, allow_ref=True, allow_b=True, allow_i=True):
         rng = self.rng
         out = []
@@ -80,6 +204,8 @@ class Gen:
             r = rng.random()
             if depth <= 1 and rng.random() < 0.12:
                 out.extend(self.sep_run(allow_link, allow_b, allow_i))
+            elif self.ns is not None and allow_link and rng.random() < 0.09:
+                out.append(self.nslink(allow_b, allow_i))
             elif depth >= 3 or r < 0.45:
                 out.extend(self.words(rng.randint(1, 2)))
             elif r < 0.57 and allow_b:
@@ -122,6 +248,8 @@ class Gen:
     def sep_item(self, allow_link, allow_b, allow_i):
         rng = self.rng
         r = rng.random()
+        if self.ns is not None and allow_link and rng.random() < 0.12:
+            return [self.nslink(allow_b, allow_i, plain_label=True)]
         if r < 0.3 and allow_link:
             return [("link", "T" + self.word(), [])]
         if r < 0.42 and allow_link:
@@ -263,7 +391,12 @@ class Gen:
             else:
                 self.noq3 = planned[1]
             rows.append(cells)
+        caption = None
+        if self.captions and rng.random() < 0.45:
+            caption = (rng.choice(["", "", "", 'align="bottom" | ', 'style="x" | ', "class=c |"]), self.apo_line(1))
         self.forbid = saved_forbid
+        if caption is not None:
+            return ("table", rows, caption)
         return ("table", rows)
 
     def styled_run(self):
@@ -340,6 +473,8 @@ def ser_inline(rng, inl):
             s = "[%s %s]" % (e[1], ser_inline(rng, e[2]))
         elif k == "ref":
             s = "<ref>%s</ref>" % ser_inline(rng, e[1])
+        elif k == "nslink":
+            s = "[[%s%s%s]]" % (":" if e[2] else "", e[1], "|" + ser_inline(rng, e[5]) if e[5] else "")
         if not glue:
             out.append(" ")
         out.append(s)
@@ -362,6 +497,8 @@ def ser_block(rng, b, first=False):
         return "".join(" %s\n" % ser_inline(rng, ln) for ln in b[1])
     if k == "table":
         out = ["{|%s\n" % rng.choice(["", ' class="wikitable"', " border=1"])]
+        if len(b) > 2 and b[2] is not None:
+            out.append("|+%s%s%s\n" % (rng.choice([" ", " ", ""]), b[2][0], ser_inline(rng, b[2][1])))
         for row in b[1]:
             out.append("|-%s\n" % rng.choice(["", "", ' style="x"']))
             newline_style = rng.random() < 0.5
@@ -436,7 +573,14 @@ def den_inline(inl, bold, italic):
             out.append(["N", ["ext", e[1]], den_inline(e[2], bold, italic)])
         elif k == "ref":
             out.append(["N", ["ref"], den_inline(e[1], bold, italic)])
+        elif k == "nslink":
+            out.append(["N", nslink_label(e), den_inline(e[5], bold, italic) if e[5] else [["L", e[1], bold, italic]]])
     return out
+
+
+def nslink_label(e):
+    """an article link is labelled like a plain link; every other kind carries its kind and the fully qualified target"""
+    return ["link", e[1]] if e[3] == "article" else ["link", e[1], e[3], e[4]]
 
 
 def apo_expand(e):
@@ -528,6 +672,8 @@ def den_block(b):
             for hdr, body in row:
                 cells.append(["N", ["cell", bool(hdr)], den_inline(body[1], False, False) if body[0] == "inl" else den_blocks(body[1])])
             rows.append(["N", ["row"], cells])
+        if len(b) > 2 and b[2] is not None:
+            rows.insert(0, ["N", ["caption"], den_inline(b[2][1], False, False)])
         return [["N", ["table"], rows]]
     raise ValueError(k)
 
